@@ -395,6 +395,7 @@ theorem log_withCb {s : State} (hi : Inv' s) (hl : LogInv s.mem) (src : Nat) (ap
           exact hp.2.incr hk' hlv⟩)
         (fun s t v hp => ⟨hp.1.write v, hp.2.writeVal ..⟩)
         (fun s t k h2 hp hne hlk _ => ⟨hp.1.repl hne hlk, hp.2.arc_drop _⟩)
+        (fun s t k h2 hp hne hlk _ _ => ⟨hp.1.swap hne hlk, hp.2⟩)
         script s t "" ⟨⟨hi, h, hs, h1.symm, h2⟩, hl⟩
       exact h
     · exact hl
